@@ -602,7 +602,7 @@ namespace via
 
       comms::ConstBuffers buffers(1, ASIO::buffer(tx_header_));
       buffers.push_back(ASIO::buffer(tx_body_));
-      buffers.push_back(ASIO::buffer(http::CRLF));
+      buffers.push_back(ASIO::buffer(http::CRLF, 2));
       return send(std::move(buffers));
     }
 
@@ -623,7 +623,7 @@ namespace via
       chunk_header_type chunk_header(size, extension);
       tx_header_ = chunk_header.to_string();
       buffers.push_front(ASIO::buffer(tx_header_));
-      buffers.push_back(ASIO::buffer(http::CRLF));
+      buffers.push_back(ASIO::buffer(http::CRLF, 2));
       return send(std::move(buffers));
     }
 
